@@ -369,7 +369,7 @@ class Plugin:
     DEPENDS = []
     HEADER = "Local Open Scope Z_scope."
     CLAUSES = {1: "initial_event", 2: "keys_consecutive", 3: "fresh", 4: "moderation", 5: "renew_extends",
-               6: "dead_silent", 7: "unknown_refused", 8: "shape"}
+               6: "dead_silent", 7: "unknown_refused", 8: "shape", 9: "eventual"}
     SHARD = 60
     SEARCH_CASES = 3000
     RULE = ("histories of SUBSCRIBE / renewal / UNSUBSCRIBE (known, unknown, expired SIDs) / variable assignments (same, "
@@ -501,8 +501,8 @@ class Plugin:
             cases += list(self._exhaustive(4))
             self.last_exhaustive = True
             d5 = list(self._exhaustive(5))
-            cases += rng.sample(d5, 6000)
-            cases += [self._random_case(rng, 40) for _ in range(6000)]
+            cases += rng.sample(d5, 20000)
+            cases += [self._random_case(rng, 40) for _ in range(12000)]
         else:
             cases += list(self._exhaustive(1)) + list(self._exhaustive(2))
             d4 = list(self._exhaustive(4))
@@ -593,7 +593,7 @@ class Plugin:
         init = C.c_list((self._run(r) for r in obs["init"]), "run")
         steps = C.c_list((f"({self._res(s[0])}, {C.c_list((self._run(r) for r in s[1]), 'run')})" for s in obs["steps"]),
                          "step_obs")
-        return f"mk_case {cfg} {ops} {init} {steps}"
+        return f"(mk_case {cfg} {ops} {init} {steps})"
 
     # ------------------------------------------------------------------ evidence helpers
     def nontrivial(self, case, obs):
